@@ -134,11 +134,14 @@ type Explorer struct {
 	atoms    map[string]*atomMeta
 	inl      map[*types.Var]ast.Expr
 	inlBusy  map[*types.Var]bool
+	sp       *spliced // the graph explored: fn's CFG with its new helpers spliced in (see splice.go)
 }
 
 type atomMeta struct {
 	mentions map[string]bool
 	stable   bool
+	fields   map[string]bool // "Owner.field" / "var:name" designators that make the atom unstable
+	other    bool            // unstable for a reason a write summary cannot exclude (address-taken local, dereference)
 	scopes   [][2]token.Pos // lexical scopes of the locals mentioned: the fact is dead outside any of them
 }
 
@@ -151,8 +154,18 @@ type xnode struct {
 
 // NewExplorer prepares the exploration of fn.
 func (p *Prog) NewExplorer(fn *Fn, hooks Hooks) *Explorer {
-	x := &Explorer{P: p, Fn: fn, G: p.CFG(fn), Hooks: hooks, MaxStates: 200000,
+	sp := p.Spliced(fn)
+	x := &Explorer{P: p, Fn: fn, G: sp.g, sp: sp, Hooks: hooks, MaxStates: 200000,
 		caseOf: map[ast.Expr]*ast.SwitchStmt{}, rangeDef: map[ast.Expr]bool{}, unstable: map[types.Object]bool{}, atoms: map[string]*atomMeta{}}
+	for _, f := range sp.fns {
+		x.scan(f)
+	}
+	return x
+}
+
+// scan records, for one explored function body, the switch cases, range definitions and the locals
+// whose value can change behind the explorer's back.
+func (x *Explorer) scan(fn *Fn) {
 	info := fn.Info()
 	ast.Inspect(fn.Body, func(n ast.Node) bool {
 		switch s := n.(type) {
@@ -193,7 +206,6 @@ func (p *Prog) NewExplorer(fn *Fn, hooks Hooks) *Explorer {
 		}
 		return true
 	})
-	return x
 }
 
 // Run explores from the function entry.
@@ -241,7 +253,7 @@ func (x *Explorer) runFrom(b0 *cfg.Block, firstNode int, init *State) {
 		}
 		states := []*State{n.st.Clone()}
 		if len(n.b.Nodes) > 0 {
-			x.prune(states[0], n.b.Nodes[0].Pos())
+			x.prune(states[0], n.b)
 		}
 		start := 0
 		if first {
@@ -498,7 +510,7 @@ func (x *Explorer) expr(e ast.Expr, states []*State) []*State {
 				x.Hooks.Call(x, e, st)
 			}
 			if !pure {
-				x.killUnstable(st)
+				x.killByCall(e, st)
 			}
 		}
 		return states
@@ -637,6 +649,13 @@ func (x *Explorer) assignZero(lhs ast.Expr, stmt ast.Node, st *State) {
 
 // kill removes the facts that mention the assigned designator.
 func (x *Explorer) kill(lhs ast.Expr, st *State) {
+	if id, ok := Unparen(lhs).(*ast.Ident); ok {
+		if o, ok := ObjOf(x.Fn.Info(), id).(*types.Var); ok && !o.IsField() && x.inlineDef(o) != nil {
+			// a single-assignment local that facts render by its definition: defining it changes
+			// nothing the facts are about
+			return
+		}
+	}
 	k, ok := x.key(Unparen(lhs))
 	if !ok {
 		// unknown target (e.g. *p = …): drop everything that is not purely local
@@ -659,16 +678,34 @@ func (x *Explorer) kill(lhs ast.Expr, st *State) {
 
 // prune drops the facts about variables whose lexical scope does not contain pos (they can never
 // be consulted again before being re-established); this keeps loops over big switches finite and small.
-func (x *Explorer) prune(st *State, pos token.Pos) {
+func (x *Explorer) prune(st *State, b *cfg.Block) {
+	frame := x.sp.frame[b]
+	if frame == nil {
+		frame = x.Fn
+	}
+	// the position that stands for "where execution is": the first node that belongs to the frame's
+	// own source (spliced bindings mix caller and callee positions)
+	lo, hi := fnExtent(frame)
+	pos := token.NoPos
+	for _, n := range b.Nodes {
+		if p := n.Pos(); p.IsValid() && lo <= p && p < hi {
+			pos = p
+			break
+		}
+	}
 	if !pos.IsValid() {
 		return
 	}
+	inner := frame != x.Fn
 	dead := func(k string) bool {
 		m := x.atoms[k]
 		if m == nil {
 			return false
 		}
 		for _, sc := range m.scopes {
+			if inner && (sc[0] < lo || sc[1] > hi) {
+				continue // a variable of a caller further up the spliced stack: still live
+			}
 			if pos < sc[0] || pos >= sc[1] {
 				return true
 			}
@@ -682,6 +719,73 @@ func (x *Explorer) prune(st *State, pos token.Pos) {
 	}
 	for r := range st.Regs {
 		if strings.HasPrefix(r, "eq:") && dead(r) {
+			delete(st.Regs, r)
+		}
+	}
+}
+
+func fnExtent(f *Fn) (token.Pos, token.Pos) {
+	if f.Decl != nil {
+		return f.Decl.Pos(), f.Decl.End()
+	}
+	if f.Lit != nil {
+		return f.Lit.Pos(), f.Lit.End()
+	}
+	return f.Body.Pos(), f.Body.End()
+}
+
+// defsOf lists the definitions of local o in the function that declares it, including the
+// synthetic parameter bindings of spliced helpers.
+func (x *Explorer) defsOf(o *types.Var) (defs []ast.Expr, isParam bool) {
+	owner := x.sp.ownerOf(o.Pos())
+	if owner == nil {
+		owner = x.Fn
+	}
+	if owner == x.Fn || owner.Root() == x.Fn.Root() {
+		defs = LocalDefs(x.Fn.Root(), o)
+		_, isParam = IsParam(x.Fn.Root(), o)
+		if !isParam {
+			_, isParam = IsParam(x.Fn, o)
+		}
+		return defs, isParam
+	}
+	defs = append(LocalDefs(owner, o), x.sp.binds[o]...)
+	return defs, false
+}
+
+// killByCall drops the facts an impure call may invalidate: all call-unstable facts when the callee's
+// write summary is unknown, otherwise those that mention a field or package variable the callee
+// (transitively) may assign.
+func (x *Explorer) killByCall(c *ast.CallExpr, st *State) {
+	ws := x.P.CallWrites(x.Fn.Info(), c)
+	if ws.Any {
+		x.killUnstable(st)
+		return
+	}
+	hit := func(m *atomMeta) bool {
+		if m == nil || m.other {
+			return true
+		}
+		if m.stable {
+			return false
+		}
+		if len(m.fields) == 0 {
+			return true
+		}
+		for k := range m.fields {
+			if ws.Fields[k] {
+				return true
+			}
+		}
+		return false
+	}
+	for f := range st.Facts {
+		if hit(x.atoms[f]) {
+			delete(st.Facts, f)
+		}
+	}
+	for r := range st.Regs {
+		if strings.HasPrefix(r, "eq:") && hit(x.atoms[r]) {
 			delete(st.Regs, r)
 		}
 	}
@@ -930,7 +1034,7 @@ func (x *Explorer) meta(k string, e ast.Expr) {
 	if _, ok := x.atoms[k]; ok {
 		return
 	}
-	m := &atomMeta{mentions: map[string]bool{}, stable: true}
+	m := &atomMeta{mentions: map[string]bool{}, stable: true, fields: map[string]bool{}}
 	info := x.Fn.Info()
 	var walk func(e ast.Expr)
 	walk = func(e ast.Expr) {
@@ -949,9 +1053,11 @@ func (x *Explorer) meta(k string, e ast.Expr) {
 			case *types.Var:
 				if o.Pkg() != nil && o.Parent() == o.Pkg().Scope() {
 					m.stable = false // package-level variable
+					m.fields["var:"+o.Name()] = true
 				}
 				if x.unstable[o] {
 					m.stable = false
+					m.other = true
 				}
 				if sc := o.Parent(); sc != nil && o.Pkg() != nil && sc != o.Pkg().Scope() && sc.Pos().IsValid() {
 					m.scopes = append(m.scopes, [2]token.Pos{sc.Pos(), sc.End()})
@@ -966,8 +1072,10 @@ func (x *Explorer) meta(k string, e ast.Expr) {
 					// a field of a local struct *value* (e.g. a reflect.StructField copy) cannot be changed by a callee
 					if tv, ok := info.Types[e.X]; !ok || tv.Type == nil {
 						m.stable = false
+						m.other = true
 					} else if _, isStruct := tv.Type.Underlying().(*types.Struct); !isStruct {
 						m.stable = false
+						m.fields[x.P.FieldKey(info, e)] = true
 					}
 				}
 			}
@@ -978,6 +1086,7 @@ func (x *Explorer) meta(k string, e ast.Expr) {
 			walk(e.X)
 		case *ast.StarExpr:
 			m.stable = false
+			m.other = true
 			walk(e.X)
 		case *ast.BinaryExpr:
 			walk(e.X)
@@ -1153,10 +1262,31 @@ func (x *Explorer) inlineDef(o *types.Var) ast.Expr {
 	defer delete(x.inlBusy, o)
 	var res ast.Expr
 	if !x.unstable[o] && !x.isResult(o) {
-		if defs := LocalDefs(x.Fn, o); len(defs) == 1 && defs[0] != nil {
+		defs, isParam := x.inlDefs(o)
+		if len(defs) > 1 && !isParam {
+			// a helper parameter bound at several splice sites to the same immutable expression
+			same := true
+			var k0 string
+			for i, d := range defs {
+				if d == nil || !x.immutable(d, 0) {
+					same = false
+					break
+				}
+				k, ok := x.key(d)
+				if !ok || (i > 0 && k != k0) {
+					same = false
+					break
+				}
+				k0 = k
+			}
+			if same {
+				defs = defs[:1]
+			}
+		}
+		if len(defs) == 1 && defs[0] != nil {
 			// constants are not inlined: `done = true` must stay a fact about `done`
 			if tv, ok := x.Fn.Info().Types[defs[0]]; !(ok && tv.Value != nil) {
-				if _, isParam := IsParam(x.Fn, o); !isParam && x.immutable(defs[0], 0) {
+				if !isParam && x.immutable(defs[0], 0) {
 					res = defs[0]
 				}
 			}
@@ -1166,8 +1296,22 @@ func (x *Explorer) inlineDef(o *types.Var) ast.Expr {
 	return res
 }
 
+// inlDefs: the definitions inlineDef considers (those in the explored function itself; for a local of
+// a spliced helper, those in the helper plus its parameter bindings).
+func (x *Explorer) inlDefs(o *types.Var) ([]ast.Expr, bool) {
+	owner := x.sp.ownerOf(o.Pos())
+	if owner == nil || owner == x.Fn || owner.Root() == x.Fn.Root() {
+		_, isParam := IsParam(x.Fn, o)
+		return LocalDefs(x.Fn, o), isParam
+	}
+	return append(LocalDefs(owner, o), x.sp.binds[o]...), false
+}
+
 // isResult: o is a named result of the function (it has an implicit zero-value definition)
 func (x *Explorer) isResult(o *types.Var) bool {
+	if x.sp.results[o] {
+		return true
+	}
 	if x.Fn.Sig == nil {
 		return false
 	}
@@ -1200,11 +1344,8 @@ func (x *Explorer) immutable(e ast.Expr, depth int) bool {
 			if o.IsField() || o.Pkg() == nil || o.Parent() == o.Pkg().Scope() || x.unstable[o] {
 				return false
 			}
-			n := 0
-			for range LocalDefs(x.Fn.Root(), o) {
-				n++
-			}
-			_, isParam := IsParam(x.Fn.Root(), o)
+			defs, isParam := x.defsOf(o)
+			n := len(defs)
 			return (isParam && n == 0) || (!isParam && n == 1)
 		}
 		return false
@@ -1348,4 +1489,17 @@ func (x *Explorer) Truth(e ast.Expr, st *State) (val, known bool) {
 		return false, true
 	}
 	return false, false
+}
+
+// SetEq records in st that pure expression e currently equals the constant with the given exact
+// string (constant.Value.ExactString form); it reports false when e cannot be rendered.
+func (x *Explorer) SetEq(e ast.Expr, exact string, st *State) bool {
+	k, ok := x.key(Unparen(e))
+	if !ok {
+		return false
+	}
+	reg := "eq:" + k
+	x.meta(reg, e)
+	st.Regs[reg] = exact
+	return true
 }
